@@ -2,7 +2,8 @@
 (* Trace judge for C03 (URL matching agrees with the declarative meaning of the rules) and    *)
 (* C12 (router redirects stay on the bound host and converge).  Input: ndjson, TRACE_FILE.     *)
 (*   cfg  : [t, op, rules, map: [strict, merge, rd], bind: [scheme, server, script, sub],     *)
-(*           c03: BOOL (the map has neither defaults nor alias rules: first outcome judged)]  *)
+(*           c03: BOOL (first outcome judged against Expected), c12: BOOL (redirect chains    *)
+(*           judged), canon: BOOL (defaults / alias rules + redirect_defaults: see Judge03)]  *)
 (*   match: [t, i, op, path, method, q: [kind, s, pairs], r: Out, follow: <<[path, r: Out]>>] *)
 (*   Out  : [kind \in match|redirect|notfound|mna|other, rule, args: <<[name, ty, v]>>, url,  *)
 (*           methods, exc]                                                                    *)
@@ -20,10 +21,15 @@ ObsArgs(o) == SeqToSet(o.args)
 
 \* ------------------------------------------------------------------ C03
 Judge03(c, ln) ==
-  LET o == ln.r IN
-  JudgeOutcome(c.rules, c.map, Root(c.bind.script), ln.path, ln.method,
+  LET o == ln.r
+      v == JudgeOutcome(c.rules, c.map, Root(c.bind.script), ln.path, ln.method,
                [kind |-> o.kind, rule |-> o.rule, args |-> ObsArgs(o), argc |-> Len(o.args),
                 upath |-> SplitUrl(o.url).path, methods |-> SeqToSet(o.methods)])
+  IN \* c.canon: the map has defaults / alias rules and redirect_defaults on, so the router may answer a
+     \* matching request with a canonicalising redirect (not part of Expected; its chain is judged by C12)
+     IF c.canon /\ v = "Redirect" /\ ~OutOfDomain(c.rules, c.map, ln.path)
+        /\ \E x \in Expected(c.rules, c.map, Norm(ln.path), ln.method).outs : x.kind = "match"
+     THEN "ok" ELSE v
 
 \* ------------------------------------------------------------------ C12
 Hops(ln) == <<[path |-> ln.path, r |-> ln.r]>> \o ln.follow
@@ -69,7 +75,7 @@ Judge12(c, ln) ==
           ELSE "SameDenotation"
 
 Verdicts(c, ln) ==
-  (IF c.c03 THEN {Judge03(c, ln)} ELSE {}) \cup {Judge12(c, ln)}
+  (IF c.c03 THEN {Judge03(c, ln)} ELSE {}) \cup (IF c.c12 THEN {Judge12(c, ln)} ELSE {})
 
 Init == l = 1 /\ cfg = [op |-> "none"]
 
